@@ -45,9 +45,12 @@ vars == <<ms, k, mv>>
 
 \* late/lock kinds: "late" | "S1" | "S2" | "none"
 KindOf(c) == IF c.late THEN "late" ELSE c.lock
-Case == [amt : Amts, incfee : IncFees, nchange : NChanges, src : Srcs, actI : ActIs, actF : ActFs,
-         late : BOOLEAN, lock : {"S1", "S2", "none"}, req : Reqs, dest : Dests, actR : ActRs, tam : Tams, fapi : FApis]
-CaseSpace == {c \in Case : WellFormed(c) /\ KindOf(c) \in LateLocks}
+CasesOf(t, kd) ==
+  {c \in [amt : Amts, incfee : IncFees, nchange : NChanges, src : Srcs, actI : ActIs, actF : ActFs,
+           late : {kd = "late"}, lock : {IF kd = "late" THEN "none" ELSE kd},
+           req : Reqs, dest : Dests, actR : ActRs, tam : {t}, fapi : FApis] : WellFormed(c)}
+Strata == Tams \X LateLocks
+CaseSpace == UNION {CasesOf(x[1], x[2]) : x \in Strata}
 
 MutSeq == MutSeq1 \o (IF MultiMut THEN MutSeqN ELSE <<>>)
 Prog(c) == SendProg(c) \o (IF c.tam = "none" THEN ProbeProg(MutSeq, Forks) ELSE <<>>)
@@ -83,9 +86,9 @@ Done == k = Len(Prog(ms.c))
 Inv_Sound == Dev = {} => mv = {}
 
 Inv_Mutants ==
-  ms.hasexp =>
+  (ms.hasexp /\ SoundFin(ms)) =>
      /\ \A m \in MutIds1 : /\ Cardinality(Changed(ms.exp, Mut(ms.exp, m))) = 1
-                           /\ (SoundFin(ms) => ~ProofValid(Mut(ms.exp, m), TRUE))
+                           /\ ~ProofValid(Mut(ms.exp, m), TRUE)
      /\ \A m \in MutIdsN : Cardinality(Changed(ms.exp, Mut(ms.exp, m))) > 1
 
 Inv_VerifyIff ==
@@ -101,14 +104,12 @@ Inv_Honest ==
      /\ (ms.last.op = "verify" /\ ms.last.proof = ms.exp => (ms.last.res = "ok" <=> "final" \in ms.chain))
 
 \* ------------------------------------------------------------- generation
-Stratum(c) == <<c.tam, KindOf(c)>>
-Strata == {Stratum(c) : c \in CaseSpace}
-InStratum(x) == {c \in CaseSpace : Stratum(c) = x}
 Quota(x) == IF x[1] = "none" THEN NHonest ELSE NPer
 Take(n, S) == IF n >= Cardinality(S) THEN S ELSE RandomSubset(n, S)
-\* honest-path cases are sampled separately so that every lock kind exports and probes a proof
-Sampled == UNION {Take(Quota(x), InStratum(x)) : x \in Strata}
-           \cup UNION {Take(NHonest, {c \in InStratum(x) : HonestCase(c)}) : x \in {y \in Strata : y[1] = "none"}}
+\* constant-level: evaluated once, deterministic under -seed.  Honest-path cases are sampled
+\* on top so that every lock kind exports and probes a proof.
+Sampled == UNION {Take(Quota(x), CasesOf(x[1], x[2])) : x \in Strata}
+           \cup UNION {Take(NHonest, {c \in CasesOf(x[1], x[2]) : HonestCase(c)}) : x \in {y \in Strata : y[1] = "none"}}
 
 Emit == (Done /\ ms.c \in Sampled) =>
   PrintT(<<"CASE", ToJson([c |-> ms.c, prog |-> Prog(ms.c), mv |-> mv, fin |-> ms.fin, honest |-> HonestCase(ms.c)])>>)
